@@ -37,7 +37,7 @@ Step(s, a) ==
     [] a.op = "detach"  -> Norm([s EXCEPT !.mem[a.g][a.t] = @ \ a.s])
     [] a.op = "drop_el" -> Norm([s EXCEPT !.elems[a.t] = @ \ a.s, !.ins[a.t] = @ \ a.s,
                                           !.mem = [g \in G |-> [t \in Types |-> IF t = a.t THEN s.mem[g][t] \ a.s ELSE s.mem[g][t]]]])
-    [] a.op = "reindex" -> [s EXCEPT !.shift[a.t] = 10]
+    [] a.op = "reindex" -> [s EXCEPT !.shift[a.t] = 1]      \* every index + 1: old and new index sets OVERLAP (a rotation-like lookup)
     [] a.op = "drop_group" -> [s EXCEPT !.exists[a.g] = FALSE, !.mem[a.g] = [t \in Types |-> {}]]
     [] a.op = "set_oos" -> [s EXCEPT !.ins = [t \in Types |-> s.ins[t] \ Members(s, a.g, t)]]
     [] a.op = "set_is"  -> [s EXCEPT !.ins = [t \in Types |-> s.ins[t] \cup Members(s, a.g, t)]]
